@@ -103,8 +103,10 @@ class Prop(object):
         faults, reach, notes = Counter(), Counter(), Counter()
         residuals = {}
         tags = Counter()
+        counters = Counter()
         steps = 0
         for r in ok:
+            counters.update(r.get("counters") or {})
             faults.update(r.get("faults") or {})
             reach.update(r.get("reach") or {})
             notes.update(r.get("notes") or {})
@@ -131,6 +133,7 @@ class Prop(object):
             "logical_steps_executed": steps,
             "simulated_time": "not applicable: PEPit has no clock or timer; steps = operations + seam events",
             "max_residual_per_oracle": residuals,
+            "judged_cells": dict(sorted(counters.items())),
             "components": self.COMPONENTS,
             "exhaustive": False,
         }
